@@ -14,6 +14,7 @@ NAME from the request options; a verdict remembered per edge then belongs to whi
 import PrimaiteModel.Model.Mask
 import PrimaiteModel.Model.RequestGuards
 import PrimaiteModel.Gen.RequestValidators
+import PrimaiteModel.Gen.RequestSchema
 import PrimaiteModel.Props.C11
 namespace Primaite.Request
 open Primaite.Mask
@@ -100,6 +101,58 @@ theorem C11_memo_sound_of_option_free {α} (env : Env) (hf : OptionFree env) (ki
     | none => rfl
     | some l => simp only [putBit, h1]
 
+/-- the per-edge memo is one instance of a state threaded through the mask loop -/
+theorem actionMaskMemo_eq_stateful {α} (env : Env) (kids : Kids) (form : α → List Key) (amap : List (Nat × α)) :
+    actionMaskMemo env kids form amap = (actionMaskSt (fun m a => checkValidMemoK env kids (form a) m) [] amap).1 := rfl
+
+/-- **General form of the class**: a mask computed with ANY state threaded through its loop — a cache, something kept from the
+previous step's mask (`s0` arbitrary) — is the mask, for every action map, as soon as there is an invariant of the state under
+which each verdict is the stateless one and which every evaluation keeps.  (The converse is what the counterexample below and the
+sibling-divergence rig are for: where no such invariant exists some map and state show the difference.) -/
+theorem C11_stateful_mask_eq_of_transparent {α σ} (valid : α → Bool) (validSt : σ → α → Bool × σ) (Inv : σ → Prop)
+    (h : ∀ s a, Inv s → (validSt s a).1 = valid a ∧ Inv (validSt s a).2) (s0 : σ) (h0 : Inv s0) (amap : List (Nat × α)) :
+    (actionMaskSt validSt s0 amap).1 = actionMask valid amap ∧ Inv (actionMaskSt validSt s0 amap).2 := by
+  unfold actionMaskSt actionMask
+  suffices hh : ∀ (l : List (Nat × α)) (st : Option (List Bool)) (s : σ), Inv s →
+      (l.foldl (putBitSt validSt) (st, s)).1 = l.foldl (putBit valid) st ∧ Inv (l.foldl (putBitSt validSt) (st, s)).2 from
+    hh amap _ s0 h0
+  intro l
+  induction l with
+  | nil => intro st s hs; exact ⟨rfl, hs⟩
+  | cons e t ih =>
+    intro st s hs
+    obtain ⟨h1, h2⟩ := h s e.2 hs
+    simp only [List.foldl_cons, putBitSt]
+    have := ih (putBit (fun _ => (validSt s e.2).1) st e) (validSt s e.2).2 h2
+    refine ⟨?_, this.2⟩
+    rw [this.1]
+    congr 1
+    cases st with
+    | none => rfl
+    | some l => simp only [putBit, h1]
+
+/-- … consequently also ACROSS masks: two masks computed one after the other with the state handed on are both the mask of
+their own valuation, provided the invariant also survives whatever happens to the state between them (`between`) -/
+theorem C11_stateful_mask_across_steps {α σ} (valid valid' : α → Bool) (validSt validSt' : σ → α → Bool × σ) (Inv Inv' : σ → Prop)
+    (h : ∀ s a, Inv s → (validSt s a).1 = valid a ∧ Inv (validSt s a).2)
+    (h' : ∀ s a, Inv' s → (validSt' s a).1 = valid' a ∧ Inv' (validSt' s a).2)
+    (between : σ → σ) (hb : ∀ s, Inv s → Inv' (between s)) (s0 : σ) (h0 : Inv s0) (amap : List (Nat × α)) :
+    (actionMaskSt validSt s0 amap).1 = actionMask valid amap ∧
+    (actionMaskSt validSt' (between (actionMaskSt validSt s0 amap).2) amap).1 = actionMask valid' amap := by
+  obtain ⟨e1, i1⟩ := C11_stateful_mask_eq_of_transparent valid validSt Inv h s0 h0 amap
+  exact ⟨e1, (C11_stateful_mask_eq_of_transparent valid' validSt' Inv' h' _ (hb _ i1) amap).1⟩
+
+/-- a memo KEPT from the previous step without clearing it (`between = id`) breaks the invariant as soon as a rule's truth
+changed: the service was running when the first mask was computed and has stopped since -/
+theorem C11_memo_kept_across_steps_counterexample :
+    let tree : Kids := [("stop", 0, .leaf 0)]
+    let running : Env := fun _ _ => true
+    let stopped : Env := fun _ _ => false
+    let m1 := actionMaskSt (fun m a => checkValidMemoK running tree a m) [] [(0, ["stop"])]
+    m1.1 = some [true] ∧
+    (actionMaskSt (fun m a => checkValidMemoK stopped tree a m) m1.2 [(0, ["stop"])]).1 = some [true] ∧
+    actionMask (fun a => checkValidK stopped tree a) [(0, ["stop"])] = some [false] := by decide
+
 /-! #### … and why it is NOT sound for the code's file-system rules: two files of one folder, `a.txt` deleted -/
 
 /-- `folder docs` → `file` edge (rule 0, reads the file's name: "exists and is not deleted") → per-file managers with `scan` -/
@@ -160,5 +213,25 @@ theorem C11_gen_option_reading_rules :
     eval .fsFileExists sibSelf ["docs", "b.txt"] none ≠ eval .fsFileExists sibSelf ["docs", "a.txt"] none ∧
     eval .folderFileExists sibSelf ["b.txt"] none ≠ eval .folderFileExists sibSelf ["a.txt"] none ∧
     eval .fileNotDeleted sibSelf ["b.txt"] none ≠ eval .fileNotDeleted sibSelf ["a.txt"] none := by decide
+
+end Primaite.Request
+
+/-! ### WHERE in the request tree the option-reading rules stand (regenerated schema of every manager, Gen/RequestSchema.lean) -/
+namespace Primaite.Request
+open Primaite.Schema Primaite.Gen.RequestSchema
+
+/-- every edge (manager, key; `*` = every key of a dynamic manager) whose validator contains a rule that reads the options -/
+def optionReadingEdges : List (String × Key) :=
+  mgrs.flatMap (fun mm => match mm.2 with
+    | .static edges => (edges.filter (fun e => e.2.1.any readsOptions)).map (fun e => (mm.1, e.1))
+    | .dynamic _ _ v => if v.any readsOptions then [(mm.1, "*")] else [])
+
+/-- The edges on which ONE rule object judges several siblings by name are exactly the five file-system edges: a file system's
+`folder` and `file` edges, a folder's `file` edge, and `delete file` / `delete folder`.  No dynamic manager (services, applications,
+NICs, nodes: one edge and one rule object PER child) carries such a rule.  These are the edges the sibling-divergence family of
+the rig aims two siblings at; a new name-reading rule elsewhere breaks this theorem and tells where the family has to grow. -/
+theorem C11_gen_option_reading_edges :
+    optionReadingEdges = [("FileSystem", "folder"), ("FileSystem", "file"), ("Folder", "file"),
+                          ("FileSystem._delete_manager", "file"), ("FileSystem._delete_manager", "folder")] := by decide +kernel
 
 end Primaite.Request
